@@ -33,3 +33,23 @@ Qed.
 Theorem lines_lossless s :
   flat_map (fun l => l ++ [10%N]) (lines s) = s \/ flat_map (fun l => l ++ [10%N]) (lines s) = s ++ [10%N].
 Proof. exact (lines_aux_lossless s []). Qed.
+
+(* the line feed at the very end of the text is optional: a non-empty text that does not end in a line feed
+   reads as the same lines with and without one appended (C10: a block may end at the end of input) *)
+Lemma lines_aux_final_lf s : forall cur,
+  last s 0%N <> 10%N -> (s <> [] \/ cur <> []) -> lines_aux cur (s ++ [10%N]) = lines_aux cur s.
+Proof.
+  induction s as [|c t IH]; intros cur Hl Hne.
+  - destruct Hne as [Hne|Hne]; [congruence|]. cbn. destruct cur; [congruence|reflexivity].
+  - cbn [app lines_aux]. destruct t as [|d t'].
+    + cbn in Hl. destruct (N.eqb_spec c 10) as [->|Hc]; [congruence|]. cbn [app lines_aux].
+      rewrite N.eqb_refl. reflexivity.
+    + assert (last (d :: t') 0%N <> 10%N) as Hl' by exact Hl.
+      destruct (N.eqb_spec c 10) as [->|Hc].
+      * f_equal. apply IH; [exact Hl'|left; discriminate].
+      * apply IH; [exact Hl'|right; discriminate].
+Qed.
+
+Theorem lines_final_lf s :
+  s <> [] -> last s 0%N <> 10%N -> lines (s ++ [10%N]) = lines s.
+Proof. intros Hne Hl. apply lines_aux_final_lf; auto. Qed.
